@@ -162,3 +162,62 @@ func ZZH_C06_lifecycle() {
 	}
 	_ = strings.Split
 }
+
+// ZZH_C06_two_receipts: two requests accepted in block H with the same timeout height; both
+// receipts (symbolic types) arrive in ONE later block; at H+T neither an accepted one is
+// listed nor its final status altered (C04: final statuses never change again).
+// zz:also C04
+func ZZH_C06_two_receipts() {
+	exec := zzNewExec(1, big.NewInt(0))
+	H, T := uint64(5), int64(2)
+	L := H + uint64(T)
+	ids := []string{"1356:chA:s1-1356:chB:s2-1", "1356:chA:s1-1356:chB:s2-2"}
+	var reqs []pb.Transaction
+	for i, id := range ids {
+		_, err := zzTMInvoke(exec, H, "Begin", pb.String(id), pb.Uint64(uint64(T)), pb.Bool(false))
+		zz.Assert("C06.two.begin", err == nil)
+		reqs = append(reqs, zzIBTPTx(uint64(i+1), pb.IBTP_INTERCHAIN, T, i))
+	}
+	zz.Assert("C06.two.register", exec.setTimeoutList(H, reqs, map[string]bool{}, map[string]bool{}, "1356") == nil)
+	// one block with both receipts
+	b := H + 1
+	var rcs []pb.Transaction
+	inv := map[string]bool{}
+	accepted := []bool{false, false}
+	for i, id := range ids {
+		rt := pb.IBTP_Type(zz.I32("receiptType"))
+		zz.Assume(rt >= 1)
+		zz.Assume(rt <= 3)
+		_, rerr := zzTMInvoke(exec, b, "Report", pb.String(id), pb.Int32(int32(rt)))
+		rc := zzIBTPTx(uint64(i+1), rt, 0, i)
+		if rerr != nil {
+			inv[rc.GetHash().String()] = true
+		} else {
+			accepted[i] = true
+		}
+		rcs = append(rcs, rc)
+	}
+	zz.Assert("C06.two.receipt-list", exec.setTimeoutList(b, rcs, inv, map[string]bool{}, "1356") == nil)
+	pre0, _ := zzRecordOf(exec, ids[0])
+	pre1, _ := zzRecordOf(exec, ids[1])
+	pres := []pb.TransactionRecord{pre0, pre1}
+	m, err := exec.getTimeoutIBTPsMap(L)
+	zz.Assert("C06.two.map", err == nil)
+	zz.Assert("C06.two.rollback", exec.setTimeoutRollback(L) == nil)
+	for i, id := range ids {
+		post, _ := zzRecordOf(exec, id)
+		n := 0
+		for _, x := range m["chA"] {
+			if x == id {
+				n++
+			}
+		}
+		if accepted[i] {
+			zz.Assert("C06.two.accepted-not-notified", n == 0)
+			zz.Assert("C04.final-status-kept", post.Status == pres[i].Status)
+		} else {
+			zz.Assert("C06.two.expired-notified-once", n == 1)
+			zz.Assert("C06.two.expired-begin-rollback", post.Status == pb.TransactionStatus_BEGIN_ROLLBACK)
+		}
+	}
+}
